@@ -48,9 +48,8 @@ def parse_user_define(text):
     :param text:    Text to parse (as string).
     :return: (name, value) pair as tuple.
     """
-    text = text.strip()
+    text = unqote(text.strip())
     if "=" in text:
-        text = unqote(text)
         name, value = text.split("=", 1)
         name = name.strip()
         value = unqote(value.strip())
